@@ -261,6 +261,9 @@ func oneRun(out *hx.Out, w *world, seed, c uint64) {
 	// round 1 are withheld, to produce unprepared and prepared round changes
 	withholdProposal := !faultFree && r.Chance(1, 3)
 	withholdCommits := !faultFree && !withholdProposal && r.Chance(1, 3)
+	// or the prepares of round 1 are lost: everybody has seen the leader's value, nobody is prepared, and the
+	// leader of round 2 proposes (and the committee decides) ANOTHER value
+	withholdPrepares := !faultFree && !withholdProposal && !withholdCommits && r.Chance(1, 2)
 
 	slotStart := w.netCfg.Beacon.GetSlotStartTime(phase0.Slot(slot))
 	height := specqbft.Height(slot)
@@ -299,6 +302,9 @@ func oneRun(out *hx.Out, w *world, seed, c uint64) {
 				continue
 			}
 			if round == 1 && withholdCommits && sm.Message.MsgType == specqbft.CommitMsgType && len(sm.Signers) == 1 {
+				continue
+			}
+			if round == 1 && withholdPrepares && sm.Message.MsgType == specqbft.PrepareMsgType {
 				continue
 			}
 			// reception time inside the round's window
